@@ -604,6 +604,7 @@ def run(ctx):
     k = 1 if ctx.quick else 16
     if os.environ.get("C02_ONLY") == "hist":       # development aid: only the reused-context histories
         core.log("reused-context decoding histories: violations %d" % ch.run_hist(ctx, random.Random(ctx.seed + 7919), cd, 150 * k, tie=tie))
+        core.log("decoder histories with a dictionary attached: %d, violations %d" % ch.run_dict_lockstep(ctx, random.Random(ctx.seed + 104729), cd, tie, 16 * k, 2))
         return
     # ---- decoder
     streams = cc.build_streams(ctx, rng, cd, 60 * k, 40 * k, 25 * k)
@@ -636,6 +637,8 @@ def run(ctx):
     run_window_tie(ctx, rng, tie, cd, 60 * k)
     nh = ch.run_hist(ctx, random.Random(ctx.seed + 7919), cd, 150 * k, tie=tie)
     core.log("reused-context decoding histories (dictionaries, prefixes, resets, stable-out, legacy frames): violations %d" % nh)
+    nd = ch.run_dict_lockstep(ctx, random.Random(ctx.seed + 104729), cd, tie, 16 * k, 2)
+    core.log("decoder histories with a dictionary attached (lock-step with StreamInstDict.v): %d, violations %d" % nd)
     nst = cc.run_store_tie(ctx, rng, tie, 60 * k)
     ctx.notes["store_tie_histories_byte_equal"] = nst
     core.log("store tie: %d histories byte-equal" % nst)
